@@ -52,6 +52,9 @@ def main():
         if prop == "C07":
             import props_typed
             return props_typed.run_c07(prop, tier)
+        if prop == "C08":
+            import props_typed
+            return props_typed.run_c08(prop, tier)
         print("unknown property", prop)
         return 2
     except (common.MachineryError, tlcrun.TLCError) as e:
